@@ -338,8 +338,8 @@ func GenWorldOpt(t *rapid.T, maxFiles int, recCombo, http bool) *World {
 // GenWorldC10 additionally draws the discriminating layouts of C10: the same
 // relative spelling denoting two different files, and extension shadowing.
 func GenWorldC10(t *rapid.T, maxFiles int) *World {
-	comboDefs = false
-	defer func() { comboDefs = true }()
+	comboDefs, SameNameTwins = false, true
+	defer func() { comboDefs, SameNameTwins = true, false }()
 	return genWorld(t, maxFiles, false, false, true)
 }
 
@@ -351,6 +351,10 @@ func GenWorldMulti(t *rapid.T, maxFiles int) *World {
 }
 
 var multiBias bool
+
+// SameNameTwins (C10 only): see genWorld. Elsewhere the order-dependent choice of which twin is called Sub and
+// which Sub_1 ("Multiple types map to the name") would be misread by the order-independence oracles.
+var SameNameTwins bool
 
 // comboDefs is switched off by the C20 and C10 generators: a definition that is
 // itself type:object + allOf and is referenced more than once makes the pinned
@@ -569,6 +573,62 @@ func genWorld(t *rapid.T, maxFiles int, recCombo, http, shadows bool) *World {
 		}
 		g := &genCtx{t: t, w: w, f: f, feat: ff, curDef: -1}
 		g.genDoc()
+	}
+	if SameNameTwins && npkg <= 1 && rapid.IntRange(0, 2).Draw(t, "samename") == 0 {
+		// two documents of one package each define "Sub" - almost, but not quite, the same definition (the copy gained
+		// a field, another default, a constraint). Each must keep a Go type of its own, whichever is generated first.
+		var ord []*SFile
+		for _, f := range w.Files {
+			if !isSpecial(f) && f.RootObj {
+				ord = append(ord, f)
+			}
+		}
+		if len(ord) >= 2 {
+			a, b := ord[0], ord[1]
+			if rapid.Bool().Draw(t, "samenameswap") {
+				a, b = b, a
+			}
+			kind := rapid.SampledFrom([]string{"subset", "default", "required", "constraint", "nested-default"}).Draw(t, "samenamekind")
+			base := func() Obj {
+				return Obj{{"type", "object"}, {"properties", Obj{{"subx", Obj{{"type", "string"}}}, {"subn", Obj{{"type", "object"}, {"properties", Obj{{"deep", Obj{{"type", "integer"}}}}}}}}}}
+			}
+			da, db := base(), base()
+			setProp := func(d Obj, name string, v any) Obj {
+				pr, _ := d.Get("properties")
+				return d.Set("properties", append(Obj{}, pr.(Obj)...).Set(name, v))
+			}
+			switch kind {
+			case "subset":
+				db = setProp(db, "suby", Obj{{"type", "string"}, {"pattern", "^[0-9]{5}$"}})
+			case "default":
+				da = setProp(da, "subx", Obj{{"type", "string"}, {"default", "from-a"}})
+				db = setProp(db, "subx", Obj{{"type", "string"}, {"default", "from-b"}})
+			case "required":
+				db = append(db, KV{"required", []any{"subx"}})
+			case "constraint":
+				db = setProp(db, "subx", Obj{{"type", "string"}, {"minLength", 3}})
+			default:
+				da = setProp(da, "subn", Obj{{"type", "object"}, {"properties", Obj{{"deep", Obj{{"type", "integer"}, {"default", 1}}}}}})
+				db = setProp(db, "subn", Obj{{"type", "object"}, {"properties", Obj{{"deep", Obj{{"type", "integer"}, {"default", 2}}}}}})
+			}
+			for i, f := range []*SFile{a, b} {
+				d := da
+				if i == 1 {
+					d = db
+				}
+				key := defsKey(f.Doc)
+				var defs Obj
+				if dv, ok := f.Doc.Get(key); ok {
+					defs, _ = dv.(Obj)
+				}
+				f.Doc = f.Doc.Set(key, append(append(Obj{}, defs...), KV{"Sub", d}))
+				props, _ := f.Doc.Get("properties")
+				po, _ := props.(Obj)
+				prop := f.Tag + "sub"
+				f.Doc = f.Doc.Set("properties", append(append(Obj{}, po...), KV{prop, Obj{{"$ref", "#/" + key + "/Sub"}}}))
+				f.Refs = append(f.Refs, RefUse{FromTag: f.Tag, Prop: prop, Ref: "#/" + key + "/Sub", ToTag: f.Tag, ToDef: "Sub", Spelling: "samename:" + kind, LocalOnly: true})
+			}
+		}
 	}
 	if http && w.Files[0].RootObj && rapid.IntRange(0, 3).Draw(t, "http") == 0 {
 		yaml := rapid.IntRange(0, 3).Draw(t, "httpyaml") == 0
